@@ -69,7 +69,14 @@ class VG(object):
         return self.d(st.sampled_from(list(seq)))
 
     # ------------------------------------------------------------------
-    def length(self, size, unit_cost=1, allow_big=True):
+    def length(self, size, unit_cost=1, allow_big=True, inner=()):
+        n = self.length1(size, unit_cost, allow_big)
+        for c in inner:
+            if not c.ext and not c.contains_root(n) and self.chance(85):
+                n = min(max(n, c.lo or 0), c.hi if c.hi is not None else n)
+        return n
+
+    def length1(self, size, unit_cost=1, allow_big=True):
         cfg = self.cfg
         n = self._length(size, allow_big and not getattr(self, '_big_used', False),
                          allow_big and getattr(self, '_mid_used', 0) < 2)
@@ -171,8 +178,8 @@ class VG(object):
             return int(x)
         return x
 
-    def string(self, kind, size, alpha):
-        n = self.length(size)
+    def string(self, kind, size, alpha, inner=()):
+        n = self.length(size, inner=inner)
         if alpha is not None:
             chars = alpha.chars()
             return ''.join(self.pick(chars) for _ in range(n)) if n <= 64 else \
@@ -279,7 +286,13 @@ class VG(object):
         if k == 'BOOLEAN':
             return self.d(st.booleans())
         if k == 'INTEGER':
-            return self.integer(r.rng)
+            v = self.integer(r.rng)
+            if len(r.rngs) > 1 and isinstance(v, int):
+                # serial application: stay inside the inner (non-extensible) ranges as well, most of the time
+                for c in r.rngs[1:]:
+                    if not c.ext and not c.contains_root(v) and self.chance(85):
+                        v = min(max(v, c.lo if c.lo is not None else v), c.hi if c.hi is not None else v)
+            return v
         if k == 'REAL':
             return self.real(b.wc)
         if k == 'NULL':
@@ -291,7 +304,7 @@ class VG(object):
         if k == 'BIT STRING':
             return self.bitstring(b, r.size)
         if k == 'OCTET STRING':
-            n = self.length(r.size)
+            n = self.length(r.size, inner=r.sizes[1:])
             if n > 64:
                 return self.d(st.binary(min_size=1, max_size=1)) * n
             return self.d(st.binary(min_size=n, max_size=n))
@@ -301,7 +314,7 @@ class VG(object):
             alpha = r.alpha
             if alpha is None and r.alpha_ext is not None and not (self.cfg.out_of_root and self.chance(35)):
                 alpha = r.alpha_ext     # extensible alphabet: mostly root characters, sometimes any character
-            return self.string(k, r.size, alpha)
+            return self.string(k, r.size, alpha, inner=r.sizes[1:])
         if k in asn.TIME_KINDS:
             return self.time(k)
         if k in ('SEQUENCE', 'SET'):
@@ -317,7 +330,7 @@ class VG(object):
             if depth >= cfg.max_depth and (r.size is None or not r.size.lo):
                 return []
             simple = asn.base_kind(self.spec, b.elem, r.mod) in ('BOOLEAN', 'INTEGER', 'NULL', 'ENUMERATED')
-            n = self.length(r.size, allow_big=simple)
+            n = self.length(r.size, allow_big=simple, inner=r.sizes[1:])
             if n > 8:
                 # keep nested values small: repeat a few drawn elements
                 base = [self.value(b.elem, r.mod, depth + 1) for _ in range(3)]
